@@ -135,7 +135,7 @@ var ops = []opDef{
 			}
 			return new(big.Int).Rem(v[0], v[1])
 		}},
-	{name: "idiv", nin: 2, signed: true, ok: same, wz: func(w []int, _ int) []int { return []int{w[0]} },
+	{name: "idiv", nin: 2, signed: true, ok: same, wz: func(w []int, _ int) []int { return []int{w[0], w[0] + 2} },
 		build: func(cc *circuits.Compiler, k cs, in [][]*circuits.Wire, z []*circuits.Wire) error {
 			return circuits.NewIDivider(cc, in[0], in[1], z, nil)
 		},
@@ -146,7 +146,7 @@ var ops = []opDef{
 			}
 			return new(big.Int).Quo(a, b) // truncated
 		}},
-	{name: "imod", nin: 2, signed: true, ok: same, wz: func(w []int, _ int) []int { return []int{w[0]} },
+	{name: "imod", nin: 2, signed: true, ok: same, wz: func(w []int, _ int) []int { return []int{w[0], w[0] + 2} },
 		build: func(cc *circuits.Compiler, k cs, in [][]*circuits.Wire, z []*circuits.Wire) error {
 			return circuits.NewIDivider(cc, in[0], in[1], nil, z)
 		},
@@ -481,6 +481,10 @@ func runCase(ctx *runner.Ctx, k cs) {
 				vk := ".value."
 				if k.Op == "subtractor" && k.WZ > maxw(k.W)+1 && v[0].Cmp(v[1]) < 0 {
 					// a negative difference in a result wider than max+1 bits has its own key
+					vk = ".value-negative-in-wide-result."
+				}
+				if k.Op == "idiv" && k.WZ > maxw(k.W) && want.Bit(k.WZ-1) == 1 {
+					// a negative quotient in a result wider than the operands
 					vk = ".value-negative-in-wide-result."
 				}
 				ctx.Violate(site+vk+wclass(k.W), fmt.Sprintf("%s(%v) widths %v -> %d bits, target %s thr=%d extra=%d prune=%v: circuit gives %s, exact result mod 2^%d is %s",
